@@ -242,8 +242,52 @@ static void op_e2pt(int argc, char **argv) {
 	ep2_out(p); fputc('\n', OUT);
 }
 
+
+/* e2wb <len> <pack> <Q> : ep2_write_bin into a guarded buffer ;  e2rb <hex> : ep2_read_bin (C07) */
+static void op_e2wb(int argc, char **argv) {
+	if (argc < 4) { fprintf(OUT, "bad-args\n"); return; }
+	int len = parse_int(argv[1]), pack = parse_int(argv[2]), caught = 0;
+	static uint8_t buf[8 * RLC_FP_BYTES + 80];
+	ep2_t p; ep2_null(p); ep2_new(p);
+	if (len < 0 || len > 8 * RLC_FP_BYTES) { fprintf(OUT, "bad-args\n"); return; }
+	ep2_tok(p, argv[3]);
+	memset(buf, 0xEE, sizeof(buf));
+	RLC_TRY { ep2_write_bin(buf + 32, len, p, pack); } RLC_CATCH_ANY { caught = 1; }
+	if (take_err() || caught) fprintf(OUT, "err"); else bytes_print(buf + 32, len);
+	for (int i = 0; i < 32; i++) if (buf[i] != 0xEE || buf[32 + len + i] != 0xEE) { fprintf(OUT, " WROTE-OUTSIDE"); break; }
+	fprintf(OUT, " size=%d\n", (int)ep2_size_bin(p, pack));
+}
+static void op_e2rb(int argc, char **argv) {
+	if (argc < 2) { fprintf(OUT, "bad-args\n"); return; }
+	static uint8_t buf[8 * RLC_FP_BYTES + 16], re[8 * RLC_FP_BYTES + 16];
+	int n = bytes_parse(buf, sizeof(buf), argv[1]), caught = 0;
+	ep2_t p; ep2_null(p); ep2_new(p);
+	/* the result must not depend on what the destination held before: decode into the identity, the generator and junk */
+	char *res[3] = { NULL, NULL, NULL }; size_t rl[3];
+	FILE *save = OUT;
+	for (int v = 0; v < 3; v++) {
+		if (v == 0) ep2_set_infty(p); else if (v == 1) ep2_curve_get_gen(p); else { memset(p, 0xA5, sizeof(ep2_st)); p->coord = BASIC; }
+		caught = 0;
+		RLC_TRY { ep2_read_bin(p, buf, n); } RLC_CATCH_ANY { caught = 1; }
+		int e = take_err() || caught;
+		OUT = open_memstream(&res[v], &rl[v]);
+		if (e) fprintf(OUT, "err");
+		else {
+			ep2_out(p); fprintf(OUT, " on=%d re=", ep2_on_curve(p));
+			caught = 0;
+			RLC_TRY { ep2_write_bin(re, n, p, n == 2 * RLC_FP_BYTES + 1); } RLC_CATCH_ANY { caught = 1; }
+			if (take_err() || caught) fprintf(OUT, "err"); else bytes_print(re, n);
+		}
+		fclose(OUT); OUT = save;
+	}
+	fprintf(OUT, "%s", res[0]);
+	if (strcmp(res[0], res[1]) != 0 || strcmp(res[0], res[2]) != 0) fprintf(OUT, " DEST-DEPENDENT[%s|%s]", res[1], res[2]);
+	for (int v = 0; v < 3; v++) free(res[v]);
+	fputc('\n', OUT);
+}
+
 const op_t ops_ep2[] = {
 	{"ep2_param", op_ep2_param}, {"e2b", op_e2b}, {"e2u", op_e2u}, {"e2m", op_e2m}, {"e2s", op_e2s},
-	{"e2l", op_e2l}, {"e2d", op_e2l}, {"e2la", op_e2l}, {"e2da", op_e2l}, {"e2pt", op_e2pt},
+	{"e2l", op_e2l}, {"e2d", op_e2l}, {"e2la", op_e2l}, {"e2da", op_e2l}, {"e2pt", op_e2pt}, {"e2wb", op_e2wb}, {"e2rb", op_e2rb},
 	{NULL, NULL}
 };
